@@ -76,3 +76,117 @@ static const struct CxMem trk_cx = { &trk_ops, NULL };
 
 static void trk_reset(void) { trk_requests = 0; trk_fail_at = 0; trk_fail_from = 0; trk_fail_count = 0; }
 #endif
+
+/* ---- appended for C09 (append-only extension; nothing above is changed) ----------------------
+ * trkm: a base CxMem whose returned addresses modulo 4096 are dictated by the caller
+ * (trkm_next_mis, a multiple of the parent alignment under test), with a table of every region
+ * (sequence number, address, size, live flag).  Each region sits in its own 4096-aligned raw
+ * allocation; the bytes before and after the region are poisoned for AddressSanitizer, so an
+ * access outside the region is reported even though it stays inside the raw allocation.
+ * Honours trk_fail_at / trk_fail_from like trk_cx. */
+#ifndef VERIF_TRKM
+#define VERIF_TRKM
+#include <stdint.h>
+#if defined(__SANITIZE_ADDRESS__)
+#include <sanitizer/asan_interface.h>
+#define TRKM_POISON(p, n) ASAN_POISON_MEMORY_REGION((p), (n))
+#define TRKM_UNPOISON(p, n) ASAN_UNPOISON_MEMORY_REGION((p), (n))
+#else
+#define TRKM_POISON(p, n) ((void)0)
+#define TRKM_UNPOISON(p, n) ((void)0)
+#endif
+
+struct TrkmReg { unsigned char *user; size_t len; unsigned char *raw; size_t rawlen; long seq; size_t mis; int live; };
+static struct TrkmReg *trkm_regs;
+static long trkm_n, trkm_cap;
+static long trkm_seq;           /* regions handed out since trkm_reset() */
+static long trkm_live;          /* regions currently live */
+static size_t trkm_next_mis;    /* address modulo 4096 of the next region(s) */
+static size_t trkm_last_req;
+
+static void *trkm_alloc(void *ctx, size_t len)
+{
+	struct TrkmReg *r;
+	size_t rawlen;
+	void *raw = NULL;
+	if (trk_should_fail()) return NULL;
+	trkm_last_req = len;
+	if (len > ((size_t)1 << 40)) return NULL;
+	rawlen = ((len + 4095) & ~(size_t)4095) + 3 * 4096;
+	if (posix_memalign(&raw, 4096, rawlen) != 0 || !raw) return NULL;
+	if (trkm_n == trkm_cap) {
+		trkm_cap = trkm_cap ? trkm_cap * 2 : 256;
+		trkm_regs = realloc(trkm_regs, trkm_cap * sizeof(*trkm_regs));
+	}
+	r = &trkm_regs[trkm_n++];
+	r->raw = raw; r->rawlen = rawlen;
+	r->mis = trkm_next_mis % 4096;
+	r->user = r->raw + 4096 + r->mis;
+	r->len = len; r->seq = trkm_seq++; r->live = 1;
+	trkm_live++;
+	TRKM_POISON(r->raw, 4096 + r->mis);
+	TRKM_POISON(r->user + len, rawlen - 4096 - r->mis - len);
+	return r->user;
+}
+
+/* index of the live region containing [p, p+n), or -1 */
+static long trkm_find(const void *p, size_t n)
+{
+	long i;
+	const unsigned char *q = p;
+	for (i = trkm_n - 1; i >= 0; i--) {
+		struct TrkmReg *r = &trkm_regs[i];
+		if (r->live && q >= r->user && q <= r->user + r->len && n <= (size_t)(r->user + r->len - q))
+			return i;
+	}
+	return -1;
+}
+
+static void trkm_free(void *ctx, void *ptr)
+{
+	long i;
+	if (!ptr) return;
+	for (i = trkm_n - 1; i >= 0; i--)
+		if (trkm_regs[i].live && trkm_regs[i].user == (unsigned char *)ptr) break;
+	if (i < 0) { fprintf(stderr, "trkm_free: region not live (double free or foreign pointer)\n"); abort(); }
+	trkm_regs[i].live = 0;
+	trkm_live--;
+	TRKM_UNPOISON(trkm_regs[i].raw, trkm_regs[i].rawlen);
+	if (trkm_regs[i].len <= (64u << 20))
+		memset(ptr, 0xDD, trkm_regs[i].len);
+	free(trkm_regs[i].raw);
+	trkm_regs[i].raw = NULL;
+}
+
+static void *trkm_realloc(void *ctx, void *ptr, size_t len)
+{
+	long i;
+	void *n;
+	size_t olen;
+	if (!ptr) return trkm_alloc(ctx, len);
+	for (i = trkm_n - 1; i >= 0; i--)
+		if (trkm_regs[i].live && trkm_regs[i].user == (unsigned char *)ptr) break;
+	if (i < 0) { fprintf(stderr, "trkm_realloc: region not live\n"); abort(); }
+	olen = trkm_regs[i].len;
+	n = trkm_alloc(ctx, len);            /* always moves, so stale pointers are caught */
+	if (!n) return NULL;
+	memcpy(n, ptr, len < olen ? len : olen);
+	trkm_free(ctx, ptr);
+	return n;
+}
+
+static const struct CxOps trkm_ops = { trkm_alloc, trkm_realloc, trkm_free, NULL };
+static const struct CxMem trkm_cx = { &trkm_ops, NULL };
+
+/* release everything still live and forget all regions */
+static void trkm_reset(void)
+{
+	long i;
+	for (i = 0; i < trkm_n; i++)
+		if (trkm_regs[i].live) {
+			TRKM_UNPOISON(trkm_regs[i].raw, trkm_regs[i].rawlen);
+			free(trkm_regs[i].raw);
+		}
+	trkm_n = 0; trkm_seq = 0; trkm_live = 0; trkm_next_mis = 0;
+}
+#endif
